@@ -103,6 +103,11 @@ def apply_edits(prog, edits):
             pos = e['n'] % (len(p['steps']) + 1)
             p['steps'].insert(pos, dict(t='out', i=len(p['outs']) - 1, a=e['v'], kw=[], beh='ret', ret=None))
             applied.append(kind)
+        elif kind in ('add_discard', 'add_force'):
+            # the changed code now gives up on / insists on recording at some point (discard_recording() and
+            # force_sample_recording() are ordinary service calls; there is nothing to discard during a replay)
+            p['steps'].insert(e['n'] % (len(p['steps']) + 1), {'t': kind[4:]})
+            applied.append(kind)
         elif not refs:
             continue
         else:
@@ -239,7 +244,7 @@ def run_pair(ctx, case):
 
 edit = st.fixed_dictionaries({
     'kind': st.sampled_from(['change_arg', 'change_kw', 'drop', 'add', 'add_new_alias', 'swap', 'change_result',
-                             'raise_instead']),
+                             'raise_instead', 'add_discard', 'add_force']),
     'n': st.integers(0, 30), 'v': V.small_values, 'decl_kind': st.sampled_from(['instance', 'static'])})
 
 
